@@ -26,7 +26,9 @@ JRAddrAccess(e) ==
      R("C17", "hasvalidport_agrees_with_port", built, r.hasvalidport = r.port_ok, cls),
      R("C17", "plain_decimal_port_accepted", built /\ port.found /\ PortOK(port.val) /\ port.val = Digits(PortValue(port.val)), r.port_ok, cls),
      R("C17", "ipversion_agrees_with_address_family", built /\ r.host_ok /\ ip.ok,
-       CASE ip.fam = "4" -> r.ipversion = << 52 >> [] ip.fam = "6" -> r.ipversion = << 54 >> [] OTHER -> r.ipversion \in {<< 52 >>, << 54 >>}, cls),
+       \* (an IPv4-mapped IPv6 literal may be classified either way, but the version has to be the family of the address Host() returned)
+       CASE ip.fam = "4" -> r.ipversion = << 52 >> [] ip.fam = "6" -> r.ipversion = << 54 >>
+         [] OTHER -> r.ipversion = (IF r.host_is4 THEN << 52 >> ELSE << 54 >>), cls),
      R("C17", "is4_agrees_with_literal", built /\ r.host_ok /\ ip.ok /\ ip.fam # "4or6", r.host_is4 = (ip.fam = "4"), cls),
      R("C17", "option_lookup_exact_key", built,
        \A i \in 1..Len(r.lookups) :
